@@ -99,6 +99,7 @@ type chunkReader struct {
 	eofLast     bool
 	closed      bool
 	reads       int
+	consumed    int // bytes handed out so far
 	afterReturn *bool
 	lateUse     *int
 }
@@ -124,6 +125,7 @@ func (c *chunkReader) Read(p []byte) (int, error) {
 	}
 	n := copy(p, c.chunks[0])
 	c.chunks[0] = c.chunks[0][n:]
+	c.consumed += n
 	if c.eofLast && !c.endErr {
 		rest := 0
 		for _, ch := range c.chunks {
@@ -176,6 +178,10 @@ func (r *recorder) Write(p []byte) (int, error) {
 func (r *recorder) Flush() {
 	if r.afterReturn {
 		r.lateUse++
+	}
+	if r.headSnap == nil {
+		// like net/http: flushing before the head is written commits an implicit 200
+		r.WriteHeader(200)
 	}
 	r.events = append(r.events, event{Kind: "F"})
 }
@@ -290,10 +296,12 @@ type action struct {
 
 type readResult struct {
 	Data []byte
+	Up   int // bytes of the client's body consumed when this Read returned
 	Err  string // "", EOF, UnexpectedEOF, ResourceExhausted, InvalidArgument, Canceled, Other
 }
 
 type backendObs struct {
+	upProbe    func() int
 	Calls      int
 	Method     string
 	Path       string
@@ -366,7 +374,7 @@ func scriptedBackend(obs *backendObs, script []action) http.Handler {
 				for i := 0; i < 100000; i++ {
 					buf := make([]byte, size)
 					n, err := r.Body.Read(buf)
-					obs.Reads = append(obs.Reads, readResult{Data: buf[:n], Err: errClass(err)})
+					obs.Reads = append(obs.Reads, readResult{Data: buf[:n], Err: errClass(err), Up: obs.up()})
 					if err != nil {
 						break
 					}
@@ -379,7 +387,7 @@ func scriptedBackend(obs *backendObs, script []action) http.Handler {
 					}
 					buf := make([]byte, size)
 					n, err := r.Body.Read(buf)
-					obs.Reads = append(obs.Reads, readResult{Data: buf[:n], Err: errClass(err)})
+					obs.Reads = append(obs.Reads, readResult{Data: buf[:n], Err: errClass(err), Up: obs.up()})
 					if err != nil {
 						break
 					}
@@ -387,7 +395,7 @@ func scriptedBackend(obs *backendObs, script []action) http.Handler {
 			case "read":
 				buf := make([]byte, a.N)
 				n, err := r.Body.Read(buf)
-				obs.Reads = append(obs.Reads, readResult{Data: buf[:n], Err: errClass(err)})
+				obs.Reads = append(obs.Reads, readResult{Data: buf[:n], Err: errClass(err), Up: obs.up()})
 			case "hadd":
 				w.Header().Add(a.Key, a.Val)
 			case "hset":
@@ -485,16 +493,24 @@ var lateWrites []string
 var canaryInRunOn = true // off while requests run concurrently (checked when the batch is over)
 var hangTimeout = 15 * time.Second
 
+func (o *backendObs) up() int {
+	if o.upProbe == nil {
+		return 0
+	}
+	return o.upProbe()
+}
+
 func runOn(tc http.Handler, req clientReq, res *scenarioResult) scenarioResult {
 	rec := &recorder{hdr: http.Header{}}
 	res.Rec = rec
 	res.Backend.probe = rec.flushedLen
 	res.Unknown.probe = rec.flushedLen
-	hr, _, ok := buildRequest(req, &rec.afterReturn, &rec.lateUse)
+	hr, cr, ok := buildRequest(req, &rec.afterReturn, &rec.lateUse)
 	if !ok {
 		res.BadTarget = true
 		return *res
 	}
+	res.Backend.upProbe = func() int { return cr.consumed }
 	if hangCount >= 3 {
 		// the tree under test wedges: stop the suite, what was observed so far is reported
 		panic(suiteAbort{})
